@@ -67,3 +67,81 @@ func VHLarge() {
 	check(c, "large: Clone holds the contents at the time of cloning")
 	vCover("array large done")
 }
+
+// VHHistory: NH (400, thorough 4000) operations on one 7x5 array in a fixed pseudo-random
+// order - Set, Fill of a rectangle (any corner order), writes through Row and RowSpan windows,
+// replacing the array by its Clone, reads outside the bounds - with the cells involved compared
+// after every operation and the whole grid every 16; values are symbolic. Anything an Array2D
+// might remember between calls (cached rows, dirty flags, lazily materialised fills) gets a long
+// life to go stale in.
+func VHHistory() {
+	n := vParam("NH")
+	const w, h = 7, 5
+	a := New2D[int](w, h)
+	var model [h][w]int
+	x := uint32(362436069)
+	rnd := func(k int) int {
+		x ^= x << 13
+		x ^= x >> 17
+		x ^= x << 5
+		return int(x>>4) % k
+	}
+	full := func(what string) {
+		for y := 0; y < h; y++ {
+			for xx := 0; xx < w; xx++ {
+				vAssert(a.Get(xx, y) == model[y][xx], what)
+			}
+		}
+	}
+	for i := 0; i < n; i++ {
+		v := vInt("v")
+		switch rnd(7) {
+		case 0, 1:
+			xx, y := rnd(w), rnd(h)
+			a.Set(xx, y, v)
+			model[y][xx] = v
+			vAssert(a.Get(xx, y) == v, "history: Get returns the value stored last")
+		case 2:
+			x1, x2, y1, y2 := rnd(w), rnd(w), rnd(h), rnd(h)
+			a.Fill(x1, y1, x2, y2, v)
+			if x1 > x2 {
+				x1, x2 = x2, x1
+			}
+			if y1 > y2 {
+				y1, y2 = y2, y1
+			}
+			for y := y1; y <= y2; y++ {
+				for xx := x1; xx <= x2; xx++ {
+					model[y][xx] = v
+				}
+			}
+			vAssert(a.Get(x1, y1) == v && a.Get(x2, y2) == v, "history: Fill assigns the corners")
+		case 3:
+			y, xx := rnd(h), rnd(w)
+			a.Row(y)[xx] = v
+			model[y][xx] = v
+			vAssert(a.Get(xx, y) == v, "history: a write through Row is seen by Get")
+		case 4:
+			y, x1 := rnd(h), rnd(w)
+			x2 := x1 + rnd(w-x1)
+			span := a.RowSpan(x1, x2, y)
+			if len(span) > 0 {
+				span[len(span)-1] = v
+				model[y][x1+len(span)-1] = v
+			}
+			vAssert(len(span) == x2-x1+1, "history: RowSpan covers the requested cells")
+		case 5:
+			c := a.Clone()
+			a.Set(0, 0, v) // the old array changes, the clone must not
+			a = c
+		case 6:
+			bad := vPanics(func() { a.Get(w+rnd(3), rnd(h)) })
+			vAssert(bad, "history: a read outside the bounds panics")
+		}
+		if i%16 == 15 {
+			full("history: every cell holds the value stored last")
+		}
+	}
+	full("history: every cell holds the value stored last (at the end)")
+	vCover("array history done")
+}
